@@ -58,8 +58,17 @@ AllOfs == { [k |-> "allOf", nullable |-> FALSE, of |-> << a, b >>] :
               a \in Forms(MemberA, "PoolA"), b \in Forms(MemberB, "PoolB") \cup Forms(MemberC, "PoolC") }
           \cup { [k |-> "allOf", nullable |-> FALSE, of |-> << a, b >>] : a \in Forms(MemberC, "PoolC"), b \in Forms(MemberB, "PoolB") }
           \cup { [k |-> "allOf", nullable |-> FALSE, of |-> << b, a >>] : a \in Forms(MemberA, "PoolA"), b \in Forms(MemberB, "PoolB") }
-OneOfs == { [k |-> "oneOf", nullable |-> FALSE, of |-> << Ref("VarDog"), Ref("VarCat") >>, discProp |-> d] : d \in {"", "kind"} }
-          \cup { [k |-> "oneOf", nullable |-> FALSE, of |-> << Ref("VarDog"), Ref("VarCat"), Ref("PoolB") >>, discProp |-> ""] }
+DM(k, v) == [k |-> k, v |-> v]
+OneOf(vs, d, dm) == [k |-> "oneOf", nullable |-> FALSE, of |-> vs, discProp |-> d, discMap |-> dm]
+Dog == Ref("VarDog")  Cat == Ref("VarCat")  Bird == Ref("VarBird")
+\* discriminator mappings: none (implicit schema names), complete, partial (fewer entries than variants, on the first /
+\* middle / last variant), several aliases for one variant
+OneOfs == { OneOf(<< Dog, Cat >>, d, << >>) : d \in {"", "kind"} }
+          \cup { OneOf(<< Dog, Cat, Ref("PoolB") >>, "", << >>) }
+          \cup { OneOf(<< Dog, Cat >>, "kind", << DM("dog", "VarDog"), DM("cat", "VarCat"), DM("kitten", "VarCat") >>) }
+          \cup { OneOf(<< Dog, Cat, Bird >>, "kind", dm) : dm \in { << >>, << DM("doggo", "VarDog") >>, << DM("kitty", "VarCat") >>, << DM("birdie", "VarBird") >>,
+                                                                   << DM("doggo", "VarDog"), DM("birdie", "VarBird") >>,
+                                                                   << DM("d", "VarDog"), DM("c", "VarCat"), DM("b", "VarBird"), DM("b2", "VarBird") >> } }
 Nested == { Obj(<< P("inner", x, r), P("list", Arr(x), FALSE) >>, [addlK |-> ""]) : x \in { Ref("PoolA"), Ref("PoolC"), MemberB }, r \in BOOLEAN }
           \cup { Arr(Ref("PoolA")), Arr(MemberB), Arr(Arr(Sc("int64", FALSE))) }
 \* properties that are a $ref to a nullable component (PoolNullStr : nullable string, PoolNullObj : nullable object)
